@@ -9,7 +9,9 @@ EXPLANATION = (
     "returned state only below min(_, object-count bound) in all four modes (R2); a provided combo reaches max_combo "
     "only below min(_, bound derived from the attributes' max combo) in every mode that has a combo (R3, sibling rule); "
     "the eight From impls between ScoreState and the mode states are field permutations that are mutually inverse "
-    "(R4); state(), generate_state()'s write-back and the single-value setters agree on one field map (R5). The "
+    "(R4); state(), generate_state()'s write-back and the single-value setters agree on one field map (R5); every "
+    "subtraction in generate_state, read as a linear form in (object count, clamped misses) with hit-result fields as opaque "
+    "counts, takes the misses off the object count at most once (R6). The rest of the "
     "remainder arithmetic (adds up, keeps what fits, idempotence) is u32 arithmetic over runtime counts: NOT decided.")
 
 
@@ -283,5 +285,124 @@ def run(ctx):
     r2_r3(ctx, F)
     r4(ctx, F)
     r5(ctx, F)
+    r6(ctx, F)
     ctx.not_decided('keeps every provided result that fits; hit results add up to the object count; idempotence of '
                     'generate_state (u32 arithmetic over runtime counts)')
+
+
+# ---- R6: unit consistency of the remainder arithmetic — misses are taken off the object count exactly once
+ADDS = ('Add', 'AddWithOverflow', 'AddUnchecked')
+SUBS = ('Sub', 'SubWithOverflow', 'SubUnchecked')
+SUB_CALLS = ('saturating_sub', 'checked_sub', 'wrapping_sub')
+ADD_CALLS = ('saturating_add', 'checked_add', 'wrapping_add')
+
+
+def lin(F, v, N_trees, m_tree, depth=0):
+    """(coefficient of the object count, coefficient of the clamped misses) of a u32 expression tree; every other leaf is an opaque count
+    (0, 0); None when the expression mixes them non-linearly"""
+    if depth > 40:
+        return None
+    v = prov.strip(v, names={'from', 'into', 'unwrap_or', 'unwrap_or_default'})
+    if v == m_tree:
+        return (0, 1)
+    if any(v == b for b in N_trees):
+        return (1, 0)
+    k = v[0]
+    if k == 'field' and v[1][0] == 'binop' and str(v[2]) == '0':
+        return lin(F, v[1], N_trees, m_tree, depth + 1)           # (a op b).0 of a checked operation
+    if k == 'binop':
+        a, b = lin(F, v[2], N_trees, m_tree, depth + 1), lin(F, v[3], N_trees, m_tree, depth + 1)
+        if v[1] in ADDS or v[1] in SUBS:
+            if a is None or b is None:
+                return None
+            sgn = 1 if v[1] in ADDS else -1
+            return (a[0] + sgn * b[0], a[1] + sgn * b[1])
+        if a == (0, 0) and b == (0, 0):
+            return (0, 0)
+        return None
+    if k == 'call':
+        name = v[1].get('name')
+        if name in SUB_CALLS + ADD_CALLS and len(v[2]) == 2:
+            a, b = lin(F, v[2][0], N_trees, m_tree, depth + 1), lin(F, v[2][1], N_trees, m_tree, depth + 1)
+            if a is None or b is None:
+                return None
+            sgn = 1 if name in ADD_CALLS else -1
+            return (a[0] + sgn * b[0], a[1] + sgn * b[1])
+        if v[1].get('local') and name in ('total_hits',) and len(v[2]) == 1:
+            # a sum over the fields of a score state: every hit-result field is a count whatever expression produced it; only the
+            # `misses` field keeps its value
+            target = F.fn(v[1].get('path'))
+            fields = F.adt_fields(v[1].get('impl_adt') or '') or []
+            if target is not None and 'misses' in fields:
+                S = prov.strip(v[2][0])
+                S2 = ('agg', 'adt', v[1].get('impl_adt'), None,
+                      {f_: (prov.project_field(S, 'misses') if f_ == 'misses' else ('unknown', 'count')) for f_ in fields})
+                return lin(F, prov.subst(prov.prov_of(target).return_value(), {1: S2}), N_trees, m_tree, depth + 1)
+            return None
+        subs = [lin(F, a, N_trees, m_tree, depth + 1) for a in v[2]]
+        if all(x == (0, 0) for x in subs):
+            return (0, 0)
+        if name in ('min', 'max', 'clamp') or any(x is None for x in subs):
+            return None
+        return (0, 0)            # an opaque function of counts is a count
+    if k == 'phi':
+        subs = [lin(F, a, N_trees, m_tree, depth + 1) for a in v[1]]
+        if subs and all(x == subs[0] for x in subs):
+            return subs[0]
+        return None
+    if k == 'cast':
+        inner = next((y for y in v[1:] if isinstance(y, tuple) and y and isinstance(y[0], str)), None)
+        return lin(F, inner, N_trees, m_tree, depth + 1) if inner else (0, 0)
+    return (0, 0)
+
+
+def r6(ctx, F):
+    n6 = 0
+    for mode in MODES:
+        f = F.method(perf_adt(mode), 'generate_state', inherent_only=True)
+        if f is None:
+            continue
+        P = prov.prov_of(f)
+        st = ok_payload(P.return_value())
+        if st is None or 'misses' not in (F.adt_fields(state_adt(mode)) or []):
+            continue
+        m_alts = prov.project_field(st, 'misses')
+        m_alts = m_alts[1] if m_alts[0] == 'phi' else [m_alts]
+        m_tree = prov.strip(m_alts[0], names={'from', 'into'})
+        o = combin.unclamped_occurrences(combin.expand(F, m_tree), src_pred('misses'))
+        N_trees = [prov.strip(b, names={'from', 'into'}) for b in o.get('bounds', [])]
+        if not N_trees:
+            continue
+        bad = []
+        for bi, si, s_ in f.assigns():
+            rv = s_['rv']
+            if rv['k'] == 'binop' and rv['op'] in SUBS:
+                a, b = P.operand(rv['a'], bi, si), P.operand(rv['b'], bi, si)
+                what = '%s - %s'
+            else:
+                continue
+            la, lb = lin(F, a, N_trees, m_tree), lin(F, b, N_trees, m_tree)
+            if la is None or lb is None:
+                continue
+            res = (la[0] - lb[0], la[1] - lb[1])
+            if res[0] >= 1:
+                n6 += 1
+                if res[1] < -res[0]:
+                    bad.append((s_.get('ln'), what % (prov.show(a, maxdepth=2)[:80], prov.show(b, maxdepth=2)[:80]), res))
+        for bi, t in f.calls():
+            if t['func'].get('name') in SUB_CALLS:
+                args = P.call_args(bi)
+                la, lb = lin(F, args[0], N_trees, m_tree), lin(F, args[1], N_trees, m_tree)
+                if la is None or lb is None:
+                    continue
+                res = (la[0] - lb[0], la[1] - lb[1])
+                if res[0] >= 1:
+                    n6 += 1
+                    if res[1] < -res[0]:
+                        bad.append((t.get('ln'), '%s.%s(%s)' % (prov.show(args[0], maxdepth=2)[:80], t['func'].get('name'), prov.show(args[1], maxdepth=2)[:80]), res))
+        ctx.require(not bad, 'C12-R6', '%s:remainder-units' % mode,
+                    '%s: no remainder takes the misses off the object count more than once' % f.path, f.where(),
+                    bad='%s: %s evaluates to (object count) %+d x misses: the misses are subtracted twice, so the hit results of the generated state add up to less than '
+                        'the object count whenever misses > 0 (and a second generate_state() call tops the state up differently)' % (
+                            f.path, '; '.join('`%s` at line %s' % (w, l) for l, w, _ in bad[:2]), bad[0][2][1] if bad else 0))
+    ctx.floor('C12-R6', n6, 6, 'remainder computations (object count minus counts) in generate_state')
